@@ -402,6 +402,14 @@ func init() {
 							if et.String() == shares {
 								continue
 							}
+							// single-exit style: the error result is a phi of the same block; an edge that brings a non-nil
+							// error is an error exit, whatever shares value travels with it
+							if ep, isEP := ret.Results[len(ret.Results)-1].(*ssa.Phi); isEP && ep.Block() == phi.Block() && i < len(ep.Edges) {
+								pred := phi.Block().Preds[i]
+								if len(pred.Instrs) > 0 && fa.provablyNonNil(ep.Edges[i], pred.Instrs[len(pred.Instrs)-1], 0) {
+									continue
+								}
+							}
 							capped := false
 							for _, f := range fa.edgeFacts(phi.Block().Preds[i], phi.Block()) {
 								if relImplies(f, Rel{A: constName(et), Op: "<=", B: shares}) {
@@ -410,6 +418,9 @@ func init() {
 							}
 							if !capped {
 								ok = false
+							} else {
+								// one case of a single-exit function = one return of the early-exit form (vacuity count)
+								r.OK(fk, fmt.Sprintf("success case of edge %d is capped at the delegation's shares", i), "value tested <= delegation.Shares on the incoming edge", r.P(ret))
 							}
 						}
 					} else {
